@@ -101,7 +101,7 @@ static Problem gen(Rng& r, long it, std::map<std::string, long>& stats, int fami
     p.knots[d].resize(nk);
     double v = r.coin() ? 0.0 : (r.unit() * 4 - 2);
     for (int i = 0; i < nk; i++) { p.knots[d][i] = v; v += style == 0 ? 1.0 : (0.3 + r.unit() * 1.7); }
-    p.porder[d] = r.range(1, std::min<int>(2, p.order[d]));
+    p.porder[d] = r.range(0, std::min<int>(3, p.order[d]));   // 0 = ridge penalty on the coefficients themselves
     static const double lams[] = {1e-3, 1e-1, 1.0, 10.0};
     p.smooth[d] = lams[r.range(0, 3)];
     // abscissae: a grid over (slightly more than) the fully supported region
@@ -239,7 +239,7 @@ static Problem gen_ws(Rng& r, long it, std::map<std::string, long>& stats) {
     p.knots[d].resize(nk);
     double v = r.coin() ? 0.0 : (r.unit() * 4 - 2);
     for (int i = 0; i < nk; i++) { p.knots[d][i] = v; v += style == 0 ? 1.0 : (0.3 + r.unit() * 1.7); }
-    p.porder[d] = r.range(1, std::min<int>(2, p.order[d]));
+    p.porder[d] = r.range(0, std::min<int>(3, p.order[d]));   // 0 = ridge penalty on the coefficients themselves
     static const double lams[] = {1e-3, 1e-1, 1.0, 10.0};
     p.smooth[d] = zero_smooth ? 0.0 : std::ldexp(lams[r.range(0, 3)], p.wk);
     if (determined) {
